@@ -87,8 +87,14 @@ func InstantNow() *dtpb.Instant {
 //
 // See: http://hl7.org/fhir/R4/datatypes.html#time
 func Time(t time.Time) *dtpb.Time {
+	day := (time.Hour * 24).Microseconds()
+	micros := t.UnixMicro() % day
+	if micros < 0 {
+		// a time before 1970: the remainder is negative, the time of day is not
+		micros += day
+	}
 	return &dtpb.Time{
-		ValueUs:   t.UnixMicro() % (time.Hour * 24).Microseconds(),
+		ValueUs:   micros,
 		Precision: dtpb.Time_MICROSECOND,
 	}
 }
